@@ -45,7 +45,9 @@ class Contract:
 
 class LoopSpec:
     def __init__(self, qual, loop, inv=(), modifies=(), decreases=None, labels=None,
-                 ghost_init=(), ghost_pre=(), post=()):
+                 ghost_init=(), ghost_pre=(), post=(), locals_types=None):
+        # locals first assigned inside the loop body but used after it: name -> type
+        self.locals_types = {k: S.parse_type(v) for k, v in (locals_types or {}).items()}
         self.qual = qual
         self.loop = loop
         self.inv = list(inv)
